@@ -9,10 +9,10 @@ PLAN = {
     "C01": {"models": ["pipeline"], "drivers": ["small", "adversarial"], "thorough_drivers": ["icase-sweep"]},
     "C02": {"models": ["pipeline"], "drivers": ["small-default", "near-miss"]},
     "C03": {"drivers": ["classes"], "models": ["class"]},
-    "C04": {"drivers": ["icase-words", "icase-sweep"], "models": []},
+    "C04": {"drivers": ["icase-words", "icase-sweep"], "models": ["fold"]},
     "C05": {"drivers": ["small-rep", "repeats"], "models": ["rep"]},
     "C06": {"drivers": ["presentation"], "models": []},
-    "C07": {"drivers": ["lattice", "front:hist"], "models": ["builder-rust"]},
+    "C07": {"drivers": ["lattice", "front:hist", "front:large"], "models": ["builder-rust"]},
     "C08": {"models": ["pipeline"], "drivers": ["small-anchors", "anchors"]},
     "C09": {"drivers": ["class-sweep"], "models": ["class"]},
     "C10": {"drivers": ["orders", "front:hist"], "models": ["builder-rust"]},
@@ -33,7 +33,7 @@ NONTRIVIAL = {
     "C04": (["judged"], "case-insensitive runs whose language was compared with the fold-orbit language"),
     "C05": (["repconv"], "runs with repetition conversion on"),
     "C06": (["judged"], "runs of the verbose/capture/escape lattice with a judged language"),
-    "C07": (["out", "hist-rust"], "builds whose outcome (ok / panic / invalid) was judged, and builder histories"),
+    "C07": (["out", "hist-rust", "large"], "builds whose outcome (ok / panic / invalid) was judged, builder histories and large-input processes"),
     "C08": (["find-open"], "runs with at least one anchor disabled whose search spans were judged"),
     "C09": (["classconv"], "distinct abstract single-character cases under class options"),
     "C10": (["determinism-pairs", "hist-rust", "multi-threads", "multi-procs"], "pairs of runs with the same set and settings, histories, thread and process batches"),
@@ -316,7 +316,41 @@ def model_class(res, known, tier, seed):
     res.exhaustive = True
 
 
-MODELS = {"front-laws": model_front_laws, "class": model_class, "rep": model_rep, "pipeline": model_pipeline, "builder-rust": model_builder("rust"), "builder-py": model_builder("py"),
+FOLD_REAL = ["A", "a", "\u0130", "i", "\u0307", "\ua7dc", "\u019b"]
+
+
+def model_fold(res, known, tier, seed):
+    """MC_Fold: case folding over an abstract alphabet; the repaired rule (Agree) satisfies P_C04, the rule
+    before the D5 repair must be refuted by TLC (negative control of the model)."""
+    consts = {"MaxLen": 3 if tier == "thorough" else 2, "Agree": "TRUE"}
+    m = vlib.run_model("Fold", constants=consts, invariants=["P_C04", "Collapse", "Replay"], tag="fold_fixed", workers=4)
+    if m["violated"]:
+        raise ToolError("bounded model fold_fixed violates %s" % m["violated"])
+    neg = vlib.run_model("Fold", constants={"MaxLen": 1, "Agree": "FALSE"}, invariants=["P_C04"], tag="fold_prefix", workers=2)
+    if "P_C04" not in neg["violated"]:
+        raise ToolError("negative control: the pre-repair folding rule was not refuted by TLC")
+    words = [o for o in m["objs"] if o.get("replay") == "fold"]
+    res.states += m["states"] + neg["states"]
+    res.transitions += m["transitions"] + neg["transitions"]
+    res.models.append({"model": "MC_Fold", "constants": consts, "states": m["states"], "transitions": m["transitions"],
+                       "behaviours": len(words), "invariants": ["P_C04", "Collapse"],
+                       "negative_control": "Agree=FALSE refuted by TLC with %s" % neg["violated"]})
+    d = os.path.join(vlib.OUT, "traces", res.prop + "_mcfold")
+    shutil.rmtree(d, ignore_errors=True)
+    os.makedirs(d)
+    planf = os.path.join(d, "plans.ndjson")
+    strs = ["".join(FOLD_REAL[a - 1] for a in o["w"]) for o in words]
+    with open(planf, "w") as f:
+        for i, t in enumerate(strs):
+            other = strs[(i * 7 + 3) % len(strs)]
+            f.write(json.dumps({"tcs": sorted(set([t, other])), "runs": [{"cfg": {"icase": True}}, {"cfg": {"icase": True, "rep": True}},
+                                                                          {"cfg": {"icase": True, "nostart": True, "noend": True}}],
+                                "tag": "mc-fold-replay"}) + "\n")
+    vlib.run_driver(res, known, "file:" + planf, tier, seed)
+    shutil.rmtree(d, ignore_errors=True)
+
+
+MODELS = {"fold": model_fold, "front-laws": model_front_laws, "class": model_class, "rep": model_rep, "pipeline": model_pipeline, "builder-rust": model_builder("rust"), "builder-py": model_builder("py"),
           "builder-wasm": model_builder("wasm")}
 
 
@@ -365,7 +399,78 @@ def replay(path):
 
 
 def selftest():
-    raise ToolError("selftest not built yet")
+    """Demonstrates the binding between specification and code (DESIGN.md 7): a trace recorded from the real
+    code is accepted; corrupting one recorded field makes the monitor answer with the right verdict; removing
+    one hook event makes it reject the trace."""
+    vlib.build_harness()
+    d = os.path.join(vlib.OUT, "selftest")
+    shutil.rmtree(d, ignore_errors=True)
+    os.makedirs(d)
+    planf = os.path.join(d, "plan.ndjson")
+    with open(planf, "w") as f:
+        f.write(json.dumps({"tcs": ["ab", "abc", "b"], "runs": [{"cfg": {}}, {"cfg": {"noend": True}}, {"cfg": {}, "input": ["b", "abc", "ab", "b"]}]}) + "\n")
+    tdir, _ = vlib.gen_traces("file:" + planf, "quick", 0, "selftest", shards=1)
+    base = [json.loads(l) for l in open(os.path.join(tdir, "trace_0.ndjson"))]
+
+    def run(events, tag):
+        p = os.path.join(d, tag + ".ndjson")
+        with open(p, "w") as f:
+            for e in events:
+                f.write(json.dumps(e) + "\n")
+        try:
+            r = vlib.run_monitor(p, "selftest_" + tag)
+            return True, [v["verdict"] for v in r["verdicts"]]
+        except ToolError:
+            return False, []
+
+    import copy
+    results = []
+
+    def expect(name, events, accepted, verdict=None):
+        acc, vs = run(events, name)
+        ok = acc == accepted and (verdict is None or verdict in vs) and (verdict is not None or not accepted or vs == [])
+        results.append((name, ok, acc, vs))
+
+    expect("unmodified", base, True)
+    ev = copy.deepcopy(base)
+    m = [e for e in ev if e["ev"] == "min"][0]
+    m["finals"] = m["finals"][:-1]
+    expect("final-state-dropped-from-min", ev, True, "min-lang")
+    ev = copy.deepcopy(base)
+    o = [e for e in ev if e["ev"] == "out"][0]
+
+    def widen(h):
+        if h.get("t") == "cls":
+            h["s"] = sorted(set(h["s"]) | {1})
+            return True
+        for k in ("xs",):
+            for x in h.get(k, []):
+                if widen(x):
+                    return True
+        return "x" in h and widen(h["x"])
+    widen(o["hir"])
+    expect("class-widened-in-output", ev, True, "print")
+    ev = copy.deepcopy(base)
+    outs = [e for e in ev if e["ev"] == "out"]
+    outs[2]["sid"] = 99
+    expect("different-string-for-permuted-list", ev, True, "nondeterministic")
+    ev = copy.deepcopy(base)
+    r = [e for e in ev if e["ev"] == "run"][0]
+    r["cfg"]["icase"] = True
+    expect("settings-say-case-insensitive", ev, True, "flags")
+    ev = [e for e in copy.deepcopy(base) if not (e["ev"] == "min" and e["r"] == 1)]
+    expect("hook-event-removed", ev, False)
+    ev = copy.deepcopy(base)
+    ob = [e for e in ev if e["ev"] == "obs"][1]
+    ob["find"][0] = [0, 1]
+    expect("engine-observation-contradicts-model", ev, True, "find-model-mismatch")
+    bad = 0
+    for name, ok, acc, vs in results:
+        print("%-42s %s (accepted=%s verdicts=%s)" % (name, "as expected" if ok else "UNEXPECTED", acc, sorted(set(vs))))
+        bad += 0 if ok else 1
+    shutil.rmtree(d, ignore_errors=True)
+    shutil.rmtree(tdir, ignore_errors=True)
+    return 2 if bad else 0
 
 
 def dev_driver(name, tier="quick", seed=1):
